@@ -217,12 +217,23 @@ def crystal_dimer_checks(part, seed):
     }
 
     def build(k):
-        n, ch, cell, Q, centre = specs[k]
+        scatter = k.endswith("*")
+        n, ch, cell, Q, centre = specs[k.rstrip("*")]
         M = lattice.cell_matrix(*cell)
         cart = np.array(centre) @ M + tmpl @ Q.T
-        return xtal.make_crystal(n, ch, cell, syms, cart @ np.linalg.inv(M))
+        frac = cart @ np.linalg.inv(M)
+        c0 = xtal.make_crystal(n, ch, cell, syms, frac)
+        if scatter:
+            # the asymmetric unit is NOT one connected molecule: two of its atoms are listed at symmetry-equivalent sites (images under
+            # the first proper and the last operation of the group), as deposited structures often do
+            ops = c0.space_group.symmetry_operations
+            proper = [o for o in ops if np.linalg.det(np.asarray(o.rotation, dtype=float)) > 0 and not o.is_identity()] or [o for o in ops if not o.is_identity()]
+            for atom, op in ((0, proper[0]), (3, [o for o in ops if not o.is_identity()][-1])):   # the FIRST listed atom sits on an image under a proper operation
+                frac[atom] = np.asarray(op.rotation, dtype=float) @ frac[atom] + np.asarray(op.translation, dtype=float)
+            c0 = xtal.make_crystal(n, ch, cell, syms, frac)
+        return c0
 
-    for order in (("A", "B", "C", "D", "A"), ("D", "C", "B", "A"), ("B", "A"), ("C", "A", "D")):
+    for order in (("A", "B", "C", "D", "A"), ("D", "C", "B", "A"), ("B", "A"), ("C", "A", "D"), ("A*", "B*"), ("C*", "D*", "A")):
         part.ev()
         for step, k in enumerate(order):
             case = {"kind": "crystal-dimer", "seed": seed, "order": list(order[: step + 1])}
